@@ -85,7 +85,7 @@ def run(ctx):
                 continue
             want = spec_rdm(d, norb, mode, eb, ek, pattern)
             got = numpy.asarray(got)
-            ok = got.shape == want.shape and numpy.array_equal(got, want)
+            ok = got.shape == want.shape and bool(numpy.all(numpy.abs(got - want) <= 1e-9 * max(1.0, float(numpy.abs(want).max()) if want.size else 1.0)))
             ctx.case(("rdm", case, pattern), sample={k: desc[k] for k in ("wfn", "norb", "rank", "same_bra")} | {"pattern": pattern}
                      if case < 3 else None)
             ctx.count(f"rank{rank}:{'normal' if normal_ordered else 'reordered'}:{wk}")
@@ -120,7 +120,7 @@ def run(ctx):
                 e = parse_c(d.ask(f"expect {norb} {fmt_vec(eb)} {fmt_vec(ek)} {fmt_op([(1.0, term)])}"))
                 ctx.case(("element", case, string))
                 ctx.count("element")
-                if got.real != float(e[0]) or got.imag != float(e[1]):
+                if abs(got.real - float(e[0])) > 1e-9 * max(1.0, abs(float(e[0]))) or abs(got.imag - float(e[1])) > 1e-9 * max(1.0, abs(float(e[1]))):
                     ctx.disagree("rdm:element", f"rdm('{string}') = {got}, exact {e}", {**desc, "pattern": string})
             # numeric strings with repeated indices and arbitrary operator order (number- and Sz-conserving overall):
             # strings that normal-order to zero ('0^ 0^ 0 0') or to a constant plus terms ('0 0^') are matrix elements
@@ -165,7 +165,7 @@ def run(ctx):
                 e = parse_c(d.ask(f"expect {norb} {fmt_vec(eb)} {fmt_vec(ek)} {fmt_op(terms)}"))
                 ctx.case(("expect", case))
                 ctx.count("expectation")
-                if got.real != float(e[0]) or got.imag != float(e[1]):
+                if abs(got.real - float(e[0])) > 1e-9 * max(1.0, abs(float(e[0]))) or abs(got.imag - float(e[1])) > 1e-9 * max(1.0, abs(float(e[1]))):
                     ctx.disagree("expectation:restricted", f"expectationValue = {got}, exact {e}", desc)
                 d1 = ket.rdm("i^ j") if same_bra else ket.rdm("i^ j", brawfn=bra)
                 d2 = ket.rdm("i^ j^ k l") if same_bra else ket.rdm("i^ j^ k l", brawfn=bra)
